@@ -278,3 +278,49 @@ Qed.
 (* a healthy network applies no restriction *)
 Lemma healthy_network_unrestricted : forall sh f ms, network_active f = true -> poor_check sh f ms = Ok tt.
 Proof. intros sh f ms H. unfold poor_check. rewrite H. reflexivity. Qed.
+
+(* ---------------------------------------------------------------- governance of the freeze lists *)
+Lemma add_tokens_In : forall addings origin x, In x (add_tokens origin addings) <-> In x origin \/ In x addings.
+Proof.
+  induction addings as [|a r IH]; intros origin x; simpl; [tauto|].
+  destruct (0 <=? find_index origin a) eqn:E.
+  - rewrite IH. apply Z.leb_le, find_index_In in E. split; [tauto|]. intros [H|[H|H]]; subst; auto.
+  - rewrite IH, in_app_iff. simpl. tauto.
+Qed.
+
+Lemma add_tokens_NoDup : forall addings origin, NoDup origin -> NoDup (add_tokens origin addings).
+Proof.
+  induction addings as [|a r IH]; intros origin H; simpl; [exact H|].
+  destruct (0 <=? find_index origin a) eqn:E; [apply IH; exact H|].
+  apply IH. apply Z.leb_gt in E. assert (~ In a origin) by (rewrite <- find_index_In; lia).
+  clear -H H0. induction origin as [|z l IHl]; simpl; [constructor; [tauto | constructor]|].
+  inversion H; subst. constructor.
+  - rewrite in_app_iff. simpl. intros [K|[K|[]]]; [contradiction | subst; apply H0; left; reflexivity].
+  - apply IHl; [assumption | intro; apply H0; right; assumption].
+Qed.
+
+(* a passed "add" proposal: EVERY named token is on the list afterwards, nothing else changes *)
+Lemma add_proposal_freezes_all : forall t toks x,
+  In x toks -> In x (bw_black (apply_prop t (mkProp true true toks))).
+Proof. intros. simpl. rewrite add_tokens_In. right. assumption. Qed.
+
+Lemma add_proposal_then_frozen : forall f toks x,
+  f_en_black f = true -> In x toks -> x <> f_native f ->
+  frozen (with_bw f (apply_prop (f_bw f) (mkProp true true toks))) x = true.
+Proof.
+  intros f toks x E Hin Hn. unfold frozen. apply is_frozen_spec. simpl. split; [exact Hn|].
+  left. split; [exact E|]. rewrite add_tokens_In. right. exact Hin.
+Qed.
+
+(* removal: position arithmetic of the "fast remove" *)
+Lemma find_index_from_nth : forall l x i, 0 <= find_index_from l x i ->
+  nth_error l (Z.to_nat (find_index_from l x i - i)) = Some x.
+Proof.
+  induction l as [|y l IH]; intros x i H; simpl in *; [lia|].
+  destruct (String.eqb y x) eqn:E.
+  - apply String.eqb_eq in E. subst. replace (i - i) with 0 by lia. reflexivity.
+  - destruct (find_index_from_range l x (i + 1)) as [R|R]; [lia|].
+    specialize (IH x (i + 1) H).
+    replace (Z.to_nat (find_index_from l x (i + 1) - i)) with (S (Z.to_nat (find_index_from l x (i + 1) - (i + 1)))) by lia.
+    exact IH.
+Qed.
